@@ -84,6 +84,7 @@ Inductive stmt :=
 | SAppend (x : string) (e : expr)                (* x.append(e), x a list *)
 | SSetItem (x : string) (i : expr) (e : expr)    (* x[i] = e *)
 | SSetSlice (x : string) (k : Z) (e : expr)      (* x[:k] = e, k >= 0 *)
+| SAugItem (x : string) (i : expr) (op : binop) (e : expr)   (* x[i] op= e *)
 | SSetAttr (x : string) (a : string) (e : expr)  (* x.a = e, x an object (only [self] is admitted by the serialiser) *)
 | SExpr (e : expr)                               (* an expression evaluated for its exceptions *)
 | SRaise
@@ -157,7 +158,12 @@ Definition binop_val (op : binop) (a b : val) : option val :=
   match a, b with
   | VL l, VZ n => match op with Mul => Some (VL (List.concat (repeat l (Z.to_nat n)))) | _ => None end   (* [x] * n *)
   | VT l, VZ n => match op with Mul => Some (VT (List.concat (repeat l (Z.to_nat n)))) | _ => None end
-  | VA l, VA r => None
+  | VA l, VA r =>                    (* two 1-D arrays of the same length, element-wise *)
+      if Nat.eqb (List.length l) (List.length r)
+      then option_map VA (map_opt (fun p => match fst p, snd p with
+                                            | VA _, _ | _, VA _ => None
+                                            | x, y => arith op x y end) (combine l r))
+      else None
   | VA l, _ => bc_l op b a
   | _, VA r => bc_r op a b
   | _, _ => arith op a b
@@ -400,7 +406,9 @@ Definition call (f : string) (args : list val) : option (option val) :=   (* Non
   let is := String.eqb f in
   if is "len" then match args with [VL l] => Some (Some (VZ (Z.of_nat (List.length l))))
                                  | [VT l] => Some (Some (VZ (Z.of_nat (List.length l))))
-                                 | [VA l] => Some (Some (VZ (Z.of_nat (List.length l)))) | _ => None end
+                                 | [VA l] => Some (Some (VZ (Z.of_nat (List.length l))))
+                                 | [VNone] | [VB _] | [VZ _] | [VQ _] => Some None          (* TypeError *)
+                                 | _ => None end
   else if is "round" then match args with [v] => match toQ v with Some q => Some (Some (VZ (rhe q))) | None => None end | _ => None end
   else if is "int" then match args with [VZ z] => Some (Some (VZ z)) | _ => None end
   else if is "abs" then match args with [VZ z] => Some (Some (VZ (Z.abs z))) | [VQ q] => Some (Some (VQ (Qabs q))) | _ => None end
@@ -511,6 +519,13 @@ Definition call (f : string) (args : list val) : option (option val) :=   (* Non
     match args with [VA l] => if all_scalar l then Some (Some (VA l)) else None | _ => None end
   else if is "attr:size" then
     match args with [VA l] => if all_scalar l then Some (Some (VZ (Z.of_nat (List.length l)))) else None | _ => None end
+  else if String.prefix "attr:" f then      (* obj.a: an attribute set in this function, or given with the object *)
+    match args with
+    | [VO _ fs] => match lookup fs (String.substring 5 (String.length f - 5) f) with
+                   | Some v => Some (Some v)
+                   | None => None end
+    | _ => None
+    end
   else None.
 
 Section Eval.
@@ -793,6 +808,32 @@ Fixpoint exec (s : stmt) (env : list (string * val)) {struct s} : outcome :=
           | Some (Some a') => Normal ((x, a') :: env)
           | Some None => Raised
           | None => Stuck end
+      | Some _, Some None, _ => Raised
+      | Some _, Some (Some _), Some None => Raised
+      | _, _, _ => Stuck
+      end
+  | SAugItem x i op e =>
+      match lookup env x, eval env i, eval env e with
+      | Some a, Some (Some (VZ j)), Some (Some v) =>
+          match seq_of a with
+          | Some l =>
+              match norm_index (List.length l) j with
+              | Some k =>
+                  match nth_val l k with
+                  | Some old =>
+                      match binop_val op old v with
+                      | Some nv => match set_item a j nv with
+                                   | Some (Some a') => Normal ((x, a') :: env)
+                                   | Some None => Raised
+                                   | None => Stuck end
+                      | None => Stuck
+                      end
+                  | None => Raised
+                  end
+              | None => Raised                                  (* IndexError *)
+              end
+          | None => Stuck
+          end
       | Some _, Some None, _ => Raised
       | Some _, Some (Some _), Some None => Raised
       | _, _, _ => Stuck
